@@ -232,6 +232,8 @@ def run(ctx):
     from props import glue
     glue.realpath_follows_fs(ctx)
     glue.pathlib_exclude(ctx)
+    from props import clauses
+    clauses.misc_clauses(ctx, 'C16')
     return ctx.finish(RULE)
 
 
